@@ -1,5 +1,5 @@
 CONSTANTS
   MaxN = 3
 SPECIFICATION Spec
-INVARIANTS KindTheorem ChainTheorem FailChainTheorem EmitCase
+INVARIANTS KindTheorem ChainTheorem FailChainTheorem EmptyChainTheorem EmitCase
 CHECK_DEADLOCK FALSE
